@@ -324,6 +324,12 @@ func c09Exec(raw json.RawMessage, res *RunResult) {
 				res.Probe("opcount_differs_after_restore")
 			}
 			if f := DiffOutcome(ref[i], &oc); f != "" {
+				if strings.Contains(ref[i].Err, "VM内部错误") && !strings.Contains(oc.Err, "VM内部错误") {
+					// the original VM executed malformed precompiled code (C08's subject); the restored VM
+					// recompiled the body from its text and works: its own signature
+					res.Violate("restore-mismatch:internal-error-on-original-only", "statement %d fails with a VM internal error on the VM that never crashed (its precompiled body is malformed) but works on the VM restored from JSON after statement %d (body recompiled from text)\n  stmt=%q\n  uncrashed: %s\n  restored:  %s\n  script=%q", i+1, from, sc.Stmts[i], ref[i].Short(), o.Short(), sc.Stmts)
+					break
+				}
 				res.Violate("restore-mismatch:"+f, "after a crash following statement %d and a restore from JSON, statement %d differs in %s from the run that never crashed\n  stmt=%q\n  uncrashed: %s\n  restored:  %s\n  script=%q", from, i+1, f, sc.Stmts[i], ref[i].Short(), o.Short(), sc.Stmts)
 				break
 			}
